@@ -239,7 +239,14 @@ class CutSession:
                 if client is not d.mclient:
                     return
                 out['writes'] += 1
+                present = set(d.srv.children(d.z.SERVERS))
                 for a, ss in double_entries(d).items():
+                    ss = [x for x in ss if x in present]
+                    if len(ss) < 2:
+                        # one of the records sits under a server whose /servers node is already gone: the operator
+                        # command in flight is deleting that server and wipes its records next, whatever the master does
+                        out['under_vanishing_server'] = out.get('under_vanishing_server', 0) + 1
+                        continue
                     if a not in seen:
                         seen.add(a)
                         out['violations'].append((
@@ -264,6 +271,8 @@ class CutSession:
             return
         if res.get('delivered') and res.get('writes', 0) > 1:
             ctx.count('cycles_between_operator_writes_with_events_and_writes')
+        if res.get('under_vanishing_server'):
+            ctx.count('double_records_under_a_server_being_deleted_at_a_cut')
         for mech, msg in res['violations']:
             ctx.violation(mech, msg, witness=dict(op=op, path=path), case=dict(ops=h.d.ops[-40:], cycle=h.cycles))
 
